@@ -171,6 +171,21 @@ def run_cfg(ctx, p, cfg):
         r.require(src is not None and any(x[0] == "call" and len(x) > 3 and x[3] == rd.block for x in walk(src)), "reloader-gets-the-loaded-text", fn=f, site=st.at,
                   detail="ConfigReloader::start receives the text read by read_config")
 
+    with ctx.rule("A7", "changes are detected through the path", cfg) as r:
+        # a handle kept open across polls keeps naming the old inode after the file is replaced (editors save by rename)
+        # or deleted: the timestamp has to come from a fresh lookup of the configured path on every poll
+        cone = [p.fn(x) for x in p.cone([RUN_ONCE]) if x in p.fns and x.startswith("config::file::")]
+        byh = [(g, c) for g in cone for c in g.calls() if c.callee in ("std::fs::File::metadata", "std::os::unix::fs::MetadataExt::mtime") or (c.callee or "").endswith("File::metadata")]
+        r.require(not byh, "no-stat-through-a-kept-handle", fn=(byh[0][0] if byh else None), site=(byh[0][1].at if byh else None),
+                  detail="File::metadata sites in the reloader: %d" % len(byh),
+                  fail_detail="the reloader stats an open file handle (%s): after the file is replaced by rename or deleted the handle still names the old inode, so the change is never seen" % (byh[0][1].callee if byh else ""))
+        byp = [(g, c) for g in cone for c in g.calls("std::fs::metadata")]
+        okp = bool(byp) and all(any(x[0] == "field" and x[2] == "path" for x in walk(c.arg(0))) for g, c in byp)
+        r.require(okp, "stats-the-configured-path", fn=(byp[0][0] if byp else None), detail="fs::metadata(&self.path) sites: %d" % len(byp))
+        mods = [(g, c) for g in cone for c in g.calls("std::fs::Metadata::modified")]
+        okm = bool(mods) and all(any(x[0] == "call" and x[1] == "std::fs::metadata" for x in walk(c.arg(0))) or g.path != RUN_ONCE for g, c in mods)
+        r.require(okm, "timestamp-of-that-lookup", fn=(mods[0][0] if mods else None), detail="modified() is taken from the metadata just looked up")
+
     with ctx.rule("A5", "reloader control flow", cfg) as r:
         f = p.fn(RUN)
         ro_ = f.call1(RUN_ONCE, "run_once")
